@@ -133,6 +133,22 @@ Theorem C03g_link_re_cmp :
 Proof. exact link_re_cmp. Qed.
 Print Assumptions C03g_link_re_cmp.
 
+Theorem C03g_link_contains :
+  forall (v : list RE) (x : RE),
+       M_fn_contains v x = Some (Constructors.contains (map conv_re v) (conv_re x)).
+Proof. exact link_contains. Qed.
+Print Assumptions C03g_link_contains.
+
+Theorem C03g_link_is_atomic :
+  forall k : BaseRegLan,
+       M_BaseRegLan_is_atomic k =
+       Some match conv_base k with
+            | NEmpty | NEps | NRange _ => true
+            | _ => false
+            end.
+Proof. exact link_is_atomic. Qed.
+Print Assumptions C03g_link_is_atomic.
+
 (* ---- recomputed attributes of a well-formed term are the cached ones; the nullable test is exact ---- *)
 
 Theorem C03g_is_nullable_cached :
@@ -220,3 +236,31 @@ Theorem C03g_re_cmp_lt :
   forall a b : RE, M_RE_cmp a b = Some Lt <-> (RE_id a < RE_id b)%nat.
 Proof. exact g_re_cmp_lt. Qed.
 Print Assumptions C03g_re_cmp_lt.
+
+Theorem C03g_contains_total :
+  forall (v : list RE) (x : RE), exists b : bool, M_fn_contains v x = Some b.
+Proof. exact g_contains_total. Qed.
+Print Assumptions C03g_contains_total.
+
+Theorem C03g_contains_true :
+  forall (v : list RE) (x : RE),
+       M_fn_contains v x = Some true -> exists y : RE, In y v /\ RE_id y = RE_id x.
+Proof. exact g_contains_true. Qed.
+Print Assumptions C03g_contains_true.
+
+Theorem C03g_contains_sorted :
+  forall (v : list RE) (x : RE),
+       ids_increase None v ->
+       M_fn_contains v x = Some true <-> (exists y : RE, In y v /\ RE_id y = RE_id x).
+Proof. exact g_contains_sorted. Qed.
+Print Assumptions C03g_contains_sorted.
+
+Theorem C03g_is_atomic :
+  forall k : BaseRegLan,
+       M_BaseRegLan_is_atomic k = Some true <->
+       match k with
+       | BaseRegLan_Empty | BaseRegLan_Epsilon | BaseRegLan_Range _ => True
+       | _ => False
+       end.
+Proof. exact g_is_atomic. Qed.
+Print Assumptions C03g_is_atomic.
